@@ -274,6 +274,8 @@ class DictReader:
             raise InvalidVersionException(msg)
 
         self.parsed_doc = self.parsed_doc['Document']
+        if not isinstance(self.parsed_doc, dict):
+            raise ParserException("Invalid odML document: 'Document' is not a dictionary.")
 
         doc_attrs = {}
         doc_secs = []
@@ -301,6 +303,29 @@ class DictReader:
 
         return doc
 
+    def _dict_entries(self, content, tag):
+        """
+        Returns the dictionary entries of a 'sections' or 'properties' list; anything
+        else found in place of the list or of one of its entries is reported via
+        the parsers error method and skipped.
+
+        :param content: the content found under a 'sections' or 'properties' key.
+        :param tag: 'Section' or 'Property'; used in the error message.
+        :returns: list of the dictionaries found in content.
+        """
+        if not isinstance(content, (list, tuple)):
+            self.error("Invalid %s list: '%s'" % (tag, content))
+            return []
+
+        entries = []
+        for entry in content:
+            if isinstance(entry, dict):
+                entries.append(entry)
+            else:
+                self.error("Invalid %s entry: '%s'" % (tag, entry))
+
+        return entries
+
     def parse_sections(self, section_list):
         """
         Parses a list of Python dictionary objects containing odML sections to the
@@ -311,7 +336,7 @@ class DictReader:
         """
         odml_sections = []
 
-        for section in section_list:
+        for section in self._dict_entries(section_list, "Section"):
             sec_attrs = {}
             children_secs = []
             sec_props = []
@@ -358,7 +383,7 @@ class DictReader:
         """
         odml_props = []
 
-        for _property in props_list:
+        for _property in self._dict_entries(props_list, "Property"):
             prop_attrs = {}
 
             for i in _property:
